@@ -462,7 +462,7 @@ pub fn run(prop: &str, tier: &str) -> i32 {
             .par_iter()
             .map(|d| {
                 let mut acc = Acc::new();
-                let alpha = alphabet(d, plan.alpha, plan.max_names, prop == "C03");
+                let alpha = alphabet(d, plan.alpha, plan.max_names, prop == "C03" || plan.label.starts_with("names universe"));
                 bfs(d, &alpha, &plan.params, &mut acc, |e, acc| check(e, &run, acc));
                 acc
             })
